@@ -21,6 +21,16 @@ Two probe families reproduce the OPEN findings on every run: `len(dfa)` raises O
 from 2^63 words on (key C13:len-overflow-2^63; the model's `lenBuiltin` has that branch and
 theorem C13_len_full_fails proves it) and cached queries on an unbound temporary raise
 RuntimeError (key C06:cached-query-on-temporary, owned by C06).
+
+Round 3 (seeded changes C13_w3m1 / C13_w3m2): SESSIONS — 4–16 C13 queries asked one after the other of ONE
+live object (count, words, partially consumed words generator, iteration prefix, min/max/empty/finite,
+cardinality/len, random_word, clear_cache, the same queries on `live.copy()`), every enumeration / count
+asked at least twice and interleaved with the others.  The live object is built under the default options
+or under `allow_mutable_automata = True` from plain `set` / `dict` containers (also: containers shared where
+a caller may share them; a `.copy()` that shares them).  EVERY answer is judged by the oracles above
+evaluated on the frozen twin (the definition AS BUILT), and — when the oracle accepts it — compared with the
+model's stateless answer for that definition.  A failing session is minimised (greedy removal of earlier
+steps) and recorded as a concrete replay.
 """
 from __future__ import annotations
 
@@ -33,6 +43,7 @@ from automata.fa.dfa import DFA
 from harness import gen
 from harness import dfa_query_lib as L
 from harness import dfa_query_lib2 as L2
+from harness import dfa_query_lib3 as L3
 from harness.common import guarded as case_guard
 from harness.common import Ctx, Toks, call, enc_dfa, toks
 
@@ -43,7 +54,11 @@ RULE = ("cases = (valid DFA, query, parameters) with query ∈ {count k, words k
         "(≤6 states; random / acyclic / from_finite_language / empty / universal / extra rows), every DFA over "
         "the empty alphabet with ≤3 states, DFAs with 10–14 states (light: counts by forward path counting), "
         "of_length languages with up to 2^71 words (cardinality/len), random digraphs of 10–40 nodes for the "
-        "networkx contract, probes of the two open findings; a case is "
+        "networkx contract, probes of the two open findings; sessions = sequences of 4–16 queries on ONE object (every "
+        "enumeration / count asked twice, interleaved) × object built under the default options / under "
+        "allow_mutable_automata=True from plain, aliased or copied containers: fixed batteries on a corpus and on all DFAs "
+        "with ≤2 states over {a,b}, random sessions on shaped random DFAs, every answer judged against the language of the "
+        "definition as built; a case is "
         "non-trivial when the language is non-empty and the DFA has ≥2 states; distinct = distinct "
         "(definition, query, parameters)")
 ASSUMPTIONS = [
@@ -58,6 +73,9 @@ ASSUMPTIONS = [
     "on its range)",
     "networkx dag_longest_path_length / topological_sort are modelled by their contract; the contract function "
     "is compared with networkx itself and with an independent DFS oracle on random digraphs (DAGLEN family)",
+    "allow_mutable_automata=True: the caller does not modify the containers it handed to the constructor (the option's "
+    "documented condition; the harness never does); the language that the answers must match is that of the "
+    "definition as built (frozen twin).  Whether the live object's definition drifted is counted, not judged (C18)",
     "len(dfa): sys.maxsize = 2^63 - 1 (64-bit CPython); queries are made on bound objects (a cached query on an "
     "unbound temporary raises RuntimeError: open finding C06:cached-query-on-temporary, probed on every run)",
 ]
@@ -597,6 +615,392 @@ def check_big_dfa(ctx: Ctx, d: DFA, kind: str):
             ctx.corr_diff("RANDOM(big)", dict(automaton=repr(d), k=k, choices=choices), r, m)
 
 
+# --------------------------------------------------------------- round 3: several queries on ONE object
+# A *session* is a list of C13 queries asked of one live object, one after the other (JSON-able steps):
+#   count k | words k | words_part k n (generator opened, n words taken, left suspended) | iter n |
+#   min | max | empty | finite | card | len | random k seed | clear (clear_cache) |
+#   on_copy <step> (the step is asked of `live.copy()`, made at that moment and kept alive)
+# The live object is built by L3.build_live (default options, or allow_mutable_automata=True with plain /
+# aliased containers).  EVERY answer is judged by the oracles of this module evaluated on the frozen
+# twin `ref` (the definition as built), never on the live object.
+SESSION_TIMEOUT_S = 4
+MINIMISE_BUDGET_S = 12
+
+
+def sessions_hanging(ctx: Ctx, limit: int = 3) -> bool:
+    """A query that no longer returns costs a full time-out: after a few of them the family stops (the
+    failing inputs found so far are reported)."""
+    if L.TIMEOUTS >= limit:
+        if not any("session family cut short" in n for n in ctx.notes):
+            ctx.note(f"{L.TIMEOUTS} real calls did not return within their time limit; session family cut short")
+        return True
+    return False
+
+
+def show_step(s: dict) -> str:
+    q = s["q"]
+    if q == "on_copy":
+        return "copy()." + show_step(s["sub"])
+    return {"count": lambda: f"count_words_of_length({s['k']})", "words": lambda: f"list(words_of_length({s['k']}))",
+            "words_part": lambda: f"first {s['n']} of words_of_length({s['k']})", "iter": lambda: f"first {s['n']} of iter()",
+            "min": lambda: "minimum_word_length()", "max": lambda: "maximum_word_length()", "empty": lambda: "isempty()",
+            "finite": lambda: "isfinite()", "card": lambda: "cardinality()", "len": lambda: "len()",
+            "random": lambda: f"random_word({s['k']}, seed={s['seed']})", "clear": lambda: "clear_cache()"}[q]()
+
+
+class Session:
+    """Executes steps on one live object; keeps every generator / copy it made alive."""
+
+    def __init__(self, live: DFA):
+        self.x = live
+        self.keep = []
+
+    def do(self, s: dict, x: DFA = None):
+        """(observation, recorded randint results or None)"""
+        x = self.x if x is None else x
+        q = s["q"]
+        g = lambda f: L.guarded(f, SESSION_TIMEOUT_S)
+        if q == "on_copy":
+            c = call(lambda: x.copy())
+            if c[0] == "err":
+                return c, None
+            self.keep.append(c[1])
+            return self.do(s["sub"], c[1])
+        if q == "count":
+            return g(lambda: x.count_words_of_length(s["k"])), None
+        if q == "words":
+            return g(lambda: list(x.words_of_length(s["k"]))), None
+        if q == "words_part":
+            def part():
+                it = x.words_of_length(s["k"])
+                self.keep.append(it)
+                return list(itertools.islice(it, s["n"]))
+            return g(part), None
+        if q == "iter":
+            def pre():
+                it = iter(x)
+                self.keep.append(it)
+                return list(itertools.islice(it, s["n"]))
+            return g(pre), None
+        if q == "random":
+            signal_guard = L.guarded(lambda: L.random_word_recorded(x, s["k"], s["seed"]), SESSION_TIMEOUT_S)
+            if signal_guard[0] == "err":
+                return signal_guard, None
+            r, choices, _ = signal_guard[1]
+            return r, choices
+        if q == "clear":
+            return g(lambda: x.clear_cache()), None
+        f = {"min": lambda: x.minimum_word_length(), "max": lambda: x.maximum_word_length(), "empty": lambda: x.isempty(),
+             "finite": lambda: x.isfinite(), "card": lambda: x.cardinality(), "len": lambda: len(x)}[q]
+        return g(f), None
+
+
+class SessionOracle:
+    """What the language of `ref` dictates for every step (brute force through ref.accepts_input, subset
+    simulation for the lengths) — computed once per DFA."""
+
+    def __init__(self, ref: DFA, K: int = None):
+        self.ref = ref
+        self.K = K_for(ref) if K is None else K
+        self.shape = L.language_shape(ref)
+        sh = self.shape
+        self.hi = self.K if (not sh["finite"] or sh["empty"]) else max(self.K, sh["max"])
+        self.bw = L.brute_words(ref, self.hi)
+        self.ordered = [w for k in sorted(self.bw) for w in self.bw[k]]
+
+    def in_range(self, s: dict) -> bool:
+        """Can the oracle judge this step?  (lengths ≤ hi; a prefix of the iteration of an infinite language
+        only as far as the enumerated words reach)"""
+        if s["q"] == "on_copy":
+            return self.in_range(s["sub"])
+        if "k" in s and not 0 <= s["k"] <= self.hi:
+            return False
+        if s["q"] == "iter" and not self.shape["finite"] and s["n"] > len(self.ordered):
+            return False
+        return True
+
+    def judge(self, s: dict, got):
+        """None, or what is wrong with the observation `got` of step `s`."""
+        q = s["q"]
+        sh, bw = self.shape, self.bw
+        if q == "on_copy":
+            return self.judge(s["sub"], got)
+        if q == "random":
+            bwk = bw[s["k"]]
+            if not bwk:
+                return None if got == ("err", "ValueError") else \
+                    f"= {got} although no word of length {s['k']} is accepted (ValueError expected)"
+            if got[0] != "ok":
+                return f"raised {got[1]} although {len(bwk)} words of length {s['k']} exist"
+            w = got[1]
+            if not isinstance(w, str) or len(w) != s["k"] or not self.ref.accepts_input(w):
+                return f"= {w!r} is not an accepted word of length {s['k']}"
+            return None
+        if q == "count":
+            exp, why = ("ok", len(bw[s["k"]])), f"the language has {len(bw[s['k']])} words of length {s['k']}"
+        elif q == "words":
+            exp, why = ("ok", bw[s["k"]]), "the sorted list of the accepted words of that length"
+        elif q == "words_part":
+            exp, why = ("ok", bw[s["k"]][: s["n"]]), "a prefix of the sorted list of the accepted words of that length"
+        elif q == "iter":
+            exp, why = ("ok", self.ordered[: s["n"]]), "the accepted words in (length, code point) order"
+        elif q == "clear":
+            exp, why = ("ok", None), "clear_cache() returns None"
+        elif q in ("min", "max"):
+            if sh["empty"]:
+                exp = ("err", "EmptyLanguageException")
+            else:
+                exp = ("ok", sh["min"] if q == "min" else (sh["max"] if sh["finite"] else None))
+            why = "the language dictates it"
+        elif q == "empty":
+            exp, why = ("ok", sh["empty"]), f"the language is {'empty' if sh['empty'] else 'not empty'}"
+        elif q == "finite":
+            exp, why = ("ok", sh["finite"]), f"the language is {'finite' if sh['finite'] else 'infinite'}"
+        else:   # card / len
+            exp = ("ok", len(self.ordered)) if sh["finite"] else ("err", "InfiniteLanguageException")
+            why = "the number of accepted words" if sh["finite"] else "the language is infinite"
+        if got == exp:
+            return None
+        return f"= {str(got)[:160]}, expected {str(exp)[:160]} ({why})"
+
+
+def run_session(ref: DFA, mode: str, steps, orc: SessionOracle = None):
+    """Build the live object, ask the steps, judge every answer.  Returns (observations, recorded RNG
+    results, failures [(index, message)], definition drifted?)."""
+    orc = orc or SessionOracle(ref, max([K_for(ref)] + [s.get("sub", s).get("k", 0) for s in steps]))
+    obs, rec, bad = [], [], []
+    with L3.mutable_option(mode):
+        keep = []
+        live = L3.build_live(ref, mode, keep)
+        ses = Session(live)
+        ses.keep.extend(keep)
+        for i, s in enumerate(steps):
+            got, choices = ses.do(s)
+            obs.append(got)
+            rec.append(choices)
+            msg = orc.judge(s, got)
+            if msg is not None:
+                bad.append((i, "gave no answer within %d s" % SESSION_TIMEOUT_S if got == ("err", "_Timeout") else msg))
+                break       # the first wrong answer ends the session
+        drift = L3.definition_of(live) != L3.definition_of(ref)
+    return obs, rec, bad, drift
+
+
+def minimise_session(ref: DFA, mode: str, steps, index: int, orc: SessionOracle):
+    """Shortest sub-sequence (greedy, one step at a time, within a time budget) that still ends in a wrong answer
+    to steps[index]."""
+    import time
+    t0 = time.time()
+    cur = list(steps[: index + 1])
+    fails_at_end = lambda st: any(i == len(st) - 1 for i, _ in run_session(ref, mode, st, orc)[2])
+    if not fails_at_end(cur):
+        return cur      # not reproducible from a new object (left as recorded)
+    j = len(cur) - 2
+    while j >= 0 and len(cur) > 1 and time.time() - t0 < MINIMISE_BUDGET_S:
+        cand = cur[:j] + cur[j + 1:]
+        if fails_at_end(cand):
+            cur = cand
+        j -= 1
+    return cur
+
+
+def session_model(ctx: Ctx, ref: DFA, orc: SessionOracle, steps, obs, rec):
+    """Correspondence on the live object: every answer the oracle accepted must also be the model's answer
+    for the definition as built (stateless commands COUNT / WORDS / MINMAX / CARD / ITER / RANDOM)."""
+    enc, st, sy = enc_dfa(ref)
+    q0 = st(ref.initial_state)
+    kinds = {s.get("sub", s)["q"] if s["q"] == "on_copy" else s["q"] for s in steps}
+    w2s = lambda w: "".join(sy.back(c) for c in w)
+    K = orc.hi
+    mct = mwt = mm = mc = None
+    if kinds & {"count"}:
+        mct = model_count(ctx, enc, K)[1]
+    if kinds & {"words", "words_part"}:
+        mwt = model_words(ctx, enc, K)[1]
+    if kinds & {"min", "max", "empty", "finite"}:
+        t = Toks(ctx.driver(L.DRV).ask(toks("MINMAX", enc)))
+        t.expect("min"); m_min = t.res(t.int)
+        t.expect("max"); m_max = t.res(t.optint)
+        t.expect("empty"); m_empty = ("ok", bool(t.int()))
+        t.expect("finite"); m_fin = t.res(lambda: bool(t.int()))
+        mm = dict(min=m_min, max=m_max, empty=m_empty, finite=m_fin)
+    if kinds & {"card", "len"}:
+        mc = model_card(ctx, enc)
+    for s0, got, choices in zip(steps, obs, rec):
+        s = s0["sub"] if s0["q"] == "on_copy" else s0
+        q = s["q"]
+        if q == "count":
+            m = ("ok", mct[s["k"]][q0])
+        elif q == "words":
+            m = ("ok", [w2s(w) for w in mwt[s["k"]][q0]])
+        elif q == "words_part":
+            m = ("ok", [w2s(w) for w in mwt[s["k"]][q0]][: s["n"]])
+        elif q in ("min", "max", "empty", "finite"):
+            m = mm[q]
+        elif q in ("card", "len"):
+            m = mc[q]
+        elif q == "iter":
+            t = Toks(ctx.driver(L.DRV).ask(toks("ITER", enc, s["n"], orc.hi + 3)))
+            r = t.res(lambda: (L.rd_words(t), t.next()))
+            if r[0] == "ok" and r[1][1] == "outOfFuel":
+                ctx.stat("session:iter_model_out_of_fuel")
+                continue
+            m = ("ok", [w2s(w) for w in r[1][0]]) if r[0] == "ok" else r
+        elif q == "random":
+            t = Toks(ctx.driver(L.DRV).ask(toks("RANDOM", enc, s["k"], len(choices or []), choices or [])))
+            m = t.res(lambda: w2s(t.ints()))
+        else:
+            continue
+        ctx.stat("session:answer_compared_with_model")
+        if m != got:
+            ctx.corr_diff("SESSION " + q, dict(automaton=repr(ref), step=s0), got, m)
+
+
+@case_guard
+def check_session(ctx: Ctx, ref: DFA, mode: str, steps, origin: str, orc: SessionOracle = None, model: bool = True):
+    if sessions_hanging(ctx):
+        return
+    orc = orc or SessionOracle(ref)
+    steps = [s for s in steps if orc.in_range(s)]
+    obs, rec, bad, drift = run_session(ref, mode, steps, orc)
+    nontrivial = (not orc.shape["empty"]) and len(ref.states) >= 2 and len(steps) >= 2
+    for s in steps[: len(obs)]:
+        ctx.case(None)
+        ctx.stat("session_q:" + (s["q"] if s["q"] != "on_copy" else "on_copy." + s["sub"]["q"]))
+    ctx.case(("session", mode, enc_dfa(ref)[0], json.dumps(steps, sort_keys=True)) if nontrivial else None)
+    ctx.stat(f"session:{origin}:{mode}")
+    ctx.stat(f"session_len:{min(len(steps) // 4 * 4, 16)}+")
+    if drift:
+        # not judged here (C18 owns "no call changes an operand"); the ANSWERS are what C13 is about
+        ctx.stat("session:definition_of_live_object_changed")
+    if ctx.stats.get(f"session:{origin}:{mode}", 0) % 150 == 1:
+        ctx.sample(dict(automaton=repr(ref), mode=mode, session=[show_step(s) for s in steps[:8]],
+                        answers=[str(o)[:50] for o in obs[:8]]))
+    if bad:
+        i, msg = bad[0]
+        small = steps[: i + 1] if obs[i] == ("err", "_Timeout") else minimise_session(ref, mode, steps, i, orc)
+        hist = "; ".join(show_step(s) for s in small[:-1])
+        what = (f"{show_step(steps[i])} {msg} — asked of ONE object ({describe_mode(mode)}) after [{hist}]"
+                if small[:-1] else f"{show_step(steps[i])} {msg} — first query on an object ({describe_mode(mode)})")
+        ctx.prop_fail(what, dict(automaton=repr(ref), op="session", params=dict(mode=mode, steps=small), what=what), FAIL_KEY)
+        return
+    if model:
+        session_model(ctx, ref, orc, steps, obs, rec)
+
+
+def describe_mode(mode: str) -> str:
+    return {"frozen": "default options", "plain": "allow_mutable_automata=True, plain set/dict containers",
+            "aliased": "allow_mutable_automata=True, plain containers, equal containers shared",
+            "copy_of_plain": "allow_mutable_automata=True, copy() of an object with plain containers"}[mode]
+
+
+def rand_step(rng, orc: SessionOracle, allow_copy: bool = True) -> dict:
+    K = orc.K
+    k = rng.choice([0, 1, 2, K, rng.randint(0, K), rng.randint(0, K)])
+    total = len(orc.ordered)
+    r = rng.random()
+    if r < 0.14:
+        return dict(q="count", k=k)
+    if r < 0.28:
+        return dict(q="words", k=k)
+    if r < 0.34:
+        return dict(q="words_part", k=k, n=rng.randint(0, max(1, len(orc.bw[k]))))
+    if r < 0.48:
+        n = rng.choice([total + 2, total, rng.randint(0, total + 1), min(total, 5)])
+        return dict(q="iter", n=n if orc.shape["finite"] else min(n, total))
+    if r < 0.54:
+        return dict(q="min")
+    if r < 0.62:
+        return dict(q="max")
+    if r < 0.65:
+        return dict(q="empty")
+    if r < 0.71:
+        return dict(q="finite")
+    if r < 0.78:
+        return dict(q="card")
+    if r < 0.83:
+        return dict(q="len")
+    if r < 0.92:
+        return dict(q="random", k=k, seed=rng.randrange(1 << 30))
+    if r < 0.95 or not allow_copy:
+        return dict(q="clear")
+    return dict(q="on_copy", sub=rand_step(rng, orc, allow_copy=False))
+
+
+def rand_session(rng, orc: SessionOracle):
+    """2–5 base queries, then the same queries once more in another order (every query is asked at least
+    twice, interleaved with the others), plus up to three extra ones anywhere."""
+    base = [rand_step(rng, orc) for _ in range(rng.randint(2, 5))]
+    again = [dict(s) for s in base]
+    rng.shuffle(again)
+    seq = base + again
+    for _ in range(rng.randint(0, 3)):
+        seq.insert(rng.randrange(len(seq) + 1), rand_step(rng, orc))
+    return seq
+
+
+def battery_session(orc: SessionOracle, variant: int = 0):
+    """A fixed sequence: enumeration / counting first, then the length queries, then every enumeration /
+    counting / sampling query AGAIN (variant 1: the length queries first)."""
+    total = len(orc.ordered)
+    n_it = total + 2 if orc.shape["finite"] else min(total, 6)
+    ks = list(range(min(orc.K, 3) + 1))
+    enum = [dict(q="words", k=k) for k in ks] + [dict(q="iter", n=n_it)] + [dict(q="count", k=k) for k in ks]
+    lens = [dict(q="max"), dict(q="finite"), dict(q="min"), dict(q="card"), dict(q="len"), dict(q="empty")]
+    rnd = [dict(q="random", k=k, seed=11 + k) for k in ks]
+    if variant == 0:
+        return enum + lens + [dict(s) for s in enum] + rnd + [dict(q="iter", n=n_it), dict(q="card")]
+    if variant == 1:
+        return lens + enum + rnd + [dict(s) for s in enum] + [dict(s) for s in lens]
+    return [dict(q="iter", n=n_it), dict(q="on_copy", sub=dict(q="card")), dict(q="iter", n=n_it)] + enum + \
+        [dict(q="clear")] + [dict(s) for s in enum] + lens
+
+
+def session_corpus():
+    abc = {"a", "b", "c"}
+    ab = {"a", "b"}
+    yield DFA(states={0, 1, 2, 3}, input_symbols=abc, transitions={0: {"a": 1}, 1: {"b": 2}, 2: {"c": 3}, 3: {}},
+              initial_state=0, final_states={1, 3}, allow_partial=True)                      # {a, abc}
+    yield DFA(states={0, 1, 2}, input_symbols=ab, transitions={0: {"a": 1}, 1: {"b": 2}, 2: {"a": 1}},
+              initial_state=0, final_states={2}, allow_partial=True)                          # a(ba)*b
+    yield DFA.from_finite_language(ab, {"ab", "ba", "abab"})
+    yield DFA.from_substring({"0", "1"}, "11", contains=False)
+    yield DFA.of_length(ab, min_length=1, max_length=3)
+    yield DFA(states={0, 1}, input_symbols={"a"}, transitions={0: {"a": 0}, 1: {"a": 1}}, initial_state=0, final_states={1})
+    yield DFA.universal_language(ab)      # all states final: `aliased` shares ONE set for states and final_states
+    yield DFA(states={0, 1}, input_symbols=ab, transitions={0: {"a": 1, "b": 1}, 1: {"a": 1, "b": 1}}, initial_state=0,
+              final_states={0, 1})        # equal rows and all states final
+
+
+def session_family(ctx: Ctx):
+    rng = ctx.rng
+    for ref in session_corpus():
+        orc = SessionOracle(ref)
+        for mode in L3.LIVE_MODES:
+            for v in (0, 1, 2):
+                check_session(ctx, ref, mode, battery_session(orc, v), "corpus", orc)
+    every = 1 if ctx.thorough() else 3
+    i = 0
+    for n_states in (1, 2):
+        for ref in gen.all_dfas(n_states, ("a", "b")):
+            i += 1
+            orc = SessionOracle(ref, 4)
+            for j, mode in enumerate(L3.LIVE_MODES):
+                if every == 1 or (i + j) % every == 0:
+                    check_session(ctx, ref, mode, battery_session(orc, (i + j) % 3), "exhaustive", orc,
+                                  model=ctx.thorough())
+    ctx.exhaustive("all DFAs with ≤2 states over {a,b}: a fixed battery of ≈25 queries on ONE object (every enumeration / "
+                   "count asked twice around the length queries), object built under the default options and under "
+                   "allow_mutable_automata=True from plain / aliased containers / as a copy"
+                   + ("" if ctx.thorough() else " (each DFA in one or two of the four modes)"))
+    for _ in range(ctx.budget(450, 9000)):
+        ref, kind = L.shaped_dfa(rng, 6)
+        orc = SessionOracle(ref)
+        ctx.stat(f"session_kind:{kind}")
+        for mode in rng.sample(L3.LIVE_MODES, 2):
+            check_session(ctx, ref, mode, rand_session(rng, orc), "random", orc)
+
+
 def corpus():
     ab = {"a", "b"}
     yield "F3_empty_language", DFA.empty_language(ab)
@@ -636,6 +1040,9 @@ def run(ctx: Ctx):
         check_dfa(ctx, d, "corpus", uniform=True)
         if hanging():
             return
+    session_family(ctx)
+    if hanging():
+        return
     big_lengths(ctx)
     len_probes(ctx)
     temporaries_probe(ctx)
@@ -669,6 +1076,17 @@ def replay(ctx: Ctx, path: str) -> int:
     data = json.load(open(path))
     rp = data.get("replay", data)
     op, params = rp["op"], rp.get("params", {})
+    if op == "session":
+        ref = L2.eval_dfa(rp["automaton"])
+        obs, rec, bad, drift = run_session(ref, params["mode"], params["steps"])
+        if bad:
+            i, msg = bad[0]
+            print(f"VIOLATION property=C13 replay={path}")
+            print(f"  {show_step(params['steps'][i])} {msg} — step #{i + 1} of the recorded sequence on one object "
+                  f"({describe_mode(params['mode'])})")
+            return 1
+        print("replay: property holds on this input now")
+        return 0
     if op in ("temporary", "len_big", "count_big", "random_big", "iter_big"):
         # round-2 families: no brute-force enumeration of the whole language
         if op == "temporary":
